@@ -6,6 +6,8 @@ scheduling sets (`queue`, `spawning`, `selecting`) — in every state reachable 
 unfinished processes are exactly the ones parked in a select with no locally ready source.
 -/
 namespace QM.Sys
+set_option linter.unusedSectionVars false
+variable [Cfg]
 
 /-- every unfinished process of the worker is scheduled -/
 def WL (w : WorkerSt) : Prop := ∀ p x, w.procs p = some x → x.result = none → w.scheduled p
